@@ -20,7 +20,7 @@ META = {
 }
 NS = 'Scalibr.Registry.'
 THEOREMS = [NS + t for t in [
-    'C19_validate_spec', 'C19_filter', 'C19_filter_mem', 'C19_enable_valid_partial', 'C19_filtered_selection_valid_partial', 'C19_required',
+    'C19_validate_spec', 'C19_filter', 'C19_filter_mem', 'C19_enable_valid_partial', 'C19_filtered_selection_valid_partial', 'C19_keys_nodup', 'C19_required',
     'C19_filtered_valid', 'C19_any_selection_valid', 'C19_names_unique', 'C19_tables_wellformed', 'C19_resolves_keys', 'C19_resolves',
     'C19_advertised_groups', 'C19_source_agrees', 'C19_required_needed', 'validate_eq_satisfied', 'mem_allCaps']]
 
